@@ -5,7 +5,6 @@ import (
 	"os"
 	"strconv"
 	"sync/atomic"
-	"time"
 
 	"verif/engine"
 )
@@ -31,10 +30,10 @@ func freePass() {
 			var class, detail string
 			done := make(chan struct{})
 			go func() { class, detail, _, _, _ = runOne(sc, c); close(done) }()
-			select {
-			case <-done:
-			case <-time.After(60 * time.Second):
-				// a scenario that normally takes milliseconds did not finish: threads are blocked for good
+			// not a wall-clock oracle: WaitDone gives up only when the whole process has been blocked
+			// (no runnable thread, no CPU time) for 60 consecutive one-second observations, i.e. the
+			// scenario's threads are blocked for good; slowness on a loaded machine never counts
+			if !engine.WaitDone(done, 60) {
 				fmt.Printf("FREE-RUN-HANG scenario=%s iteration=%d\n", sc.Name, i)
 				os.Exit(4)
 			}
